@@ -391,8 +391,8 @@ theorem ctlSetPwm_spec {w : World} (t : Int) (hm : MapInv w.ctl) (hr : w.dev.pwm
   obtain ⟨k, hk, m, hmm, p, hp, hpk⟩ := closest_ok_mem hm t
   have hsup : supports w.fan w.dev .pwmSensor = true := by
     unfold supports; cases w.fan.kind <;> simp [hr]
-  have hget : ctlGetPwm { w with ctl := { w.ctl with lastSet := some t } } = .ok w.dev.pwm := by
-    simp [ctlGetPwm, hsup, fanGetPwm, hr]
+  have hget : fanGetPwm w.dev = .ok w.dev.pwm := by
+    simp [fanGetPwm, hr]
   have hsup' : supports w.fan w.dev .pwmSensor = true := hsup
   unfold ctlSetPwm
   simp only [hk, hget, hsup']
